@@ -81,6 +81,11 @@ pub enum Error<'a> {
 
     /// Input contains an invalid character (like a non-ASCII character)
     InvalidCharacter { char: Str<'a> },
+
+    /// A number is too large: integers must be in the range (-2^31,2^31),
+    /// dimensions must be smaller than 16384pt, and infinite glue components
+    /// must be smaller than 32768.
+    NumberOutOfRange { number: Str<'a> },
 }
 
 impl<'a> Error<'a> {
@@ -118,6 +123,7 @@ impl<'a> Error<'a> {
             MultipleDecimalPoints { .. } => "A number has multiple decimal points".into(),
             NumberWithoutUnits { .. } => "No units were provided for this number".into(),
             InvalidCharacter { .. } => "Invalid character in the input".into(),
+            NumberOutOfRange { .. } => "A number is out of range".into(),
         }
     }
     pub fn labels(&self) -> Vec<ErrorLabel> {
@@ -279,6 +285,10 @@ MultipleDecimalPoints { point } => vec![
     },
 
             ],
+            NumberOutOfRange { number } => vec![ErrorLabel {
+                span: number.span(),
+                text: "this number is too large".into(),
+            }],
         }
     }
     pub fn notes(&self) -> Vec<String> {
@@ -311,7 +321,8 @@ MultipleDecimalPoints { point } => vec![
             | InvalidDimensionUnit { .. }
             | MultipleDecimalPoints { .. }
             | NumberWithoutUnits { .. }
-            | InvalidCharacter { .. } => vec![],
+            | InvalidCharacter { .. }
+            | NumberOutOfRange { .. } => vec![],
         }
     }
 }
